@@ -130,6 +130,39 @@ def check(ast):
     return fails
 
 
+# ---- histories of parses in ONE process: files that re-use the same names with different meanings -------------
+def variant_file(i):
+    tgt = ["rho0", "K*0", "phi", "D*+"][i]
+    return [
+        ["Alias", "MyRes", tgt], ["Particle", "MyRes", ["0.77", "0.9", "1.02", "2.01"][i], None], ["Particle", "rho0", "0.7", None if i % 2 else "0.15"],
+        ["ChargeConj", "CcA", f"CcB{i}"], ["Define", "dv", str(i + 1)], BASE_BLOCKS[0],
+        ["CopyDecay", "Cp", ["A0", "B+"][i % 2]], ["CDecay", ["anti-Zq", "Zr-"][i % 2]],
+        ["Pythia", "PythiaBothParam", "ParticleDecays", "mixB", ["off", "on", "1", "word"][i]], ["JetSetPar", "PARJ(21)", ["0", "0.36", "5", "-1."][i]],
+        ["LS", ["LSFLAT", "LSNONRELBW"][i % 2], "MyRes"], ["BlattWeisskopf", "MyRes", str(i + 2)], ["ChangeMass", "ChangeMassMin", "MyRes", f"0.{i+1}"],
+        ["IncFactor", "IncludeBirthFactor", "MyRes", ["yes", "no"][i % 2]], ["SetLineshapePW", "D_1+", "D*+", "pi0", str(i)],
+        BASE_BLOCKS[1], ["ModelAlias", "MAl", ["SVS", "VSS", "HELAMP", "PHSP"][i], [None, ["1.0"], ["dv", "w"], None][i]],
+    ] + ([["Photos", "yes"]] if i % 2 else []) + ([["Photos", "no"]] if i == 3 else [])
+
+
+FILE_OPS = [(i,) for i in range(4)]
+
+
+def run_file_history(hist):
+    from props.deccommon import compare_tables
+    fails = []
+    for step, (i,) in enumerate(hist):
+        ast = variant_file(i)
+        text = decmodel.render(ast)
+        try:
+            p = decobs.parse_text(text)
+            f = compare_globals(ast, p) + compare_tables(ast, p)
+        except Exception as e:  # noqa: BLE001
+            f = [(f"exception:{type(e).__name__}", repr(e))]
+        if step == len(hist) - 1:
+            fails = [(s_ + "@history", f"files parsed in one process: {[h[0] for h in hist]}; for the last one: {d}") for s_, d in f]
+    return {"canon": ("files", len(fails) > 0), "fails": fails, "enabled": FILE_OPS, "outcome": "F" if fails else "ok"}
+
+
 def work(items):
     fails, outs = [], set()
     for origin, ndev, ast in items:
@@ -141,6 +174,9 @@ def work(items):
 
 
 def exec_case(kind, payload):
+    if kind == "files":
+        from mc.core import run_forked
+        return run_forked(run_file_history, tuple(tuple(o) for o in payload["history"]))["fails"]
     return check(payload["ast"])
 
 
@@ -177,6 +213,10 @@ def numeric_sweep():
 
 
 def run(ctx):
+    from mc.bfs import bfs
+    depth = 3 if ctx.thorough else 2
+    bfs(ctx, "files-parsed-in-one-process", run_file_history, depth, depth, "files",
+        payload_of=lambda h: {"history": [list(o) for o in h]}, chunk=2, isolate=True)
     bound = 3 if ctx.thorough else 2
     stats = {}
     items = [(["dbe", list(ch)], nd, ast) for ch, nd, ast in dbe.explore(gen, bound, stats)]
